@@ -141,6 +141,7 @@ enum Op {
   OP_Q120_BAA_REF, OP_Q120_BAA_AVX2, OP_Q120_BBB_REF, OP_Q120_BBB_AVX2, OP_Q120_BBC_REF, OP_Q120_BBC_AVX2,
   OP_Q120X2_1COL_REF, OP_Q120X2_1COL_AVX2, OP_Q120X2_2COLS_REF, OP_Q120X2_2COLS_AVX2,
   OP_Q120_B_FROM_ZNX64, OP_Q120_C_FROM_ZNX64, OP_Q120_C_FROM_B, OP_Q120_B_TO_ZNX128, OP_Q120_ADD_BBB, OP_Q120_ADD_CCC,
+  OP_Q120X2_EXTRACT_B, OP_Q120X2_EXTRACT_C, OP_Q120X2_EXTRACT_CONTIG, OP_Q120X2_SAVE,
   // *_simple twins (hidden per-dimension caches)
   OP_REIM_FFT_SIMPLE, OP_REIM_IFFT_SIMPLE, OP_REIM_MUL_SIMPLE, OP_REIM_ADDMUL_SIMPLE, OP_REIM_FROM_ZNX64_SIMPLE,
   OP_REIM_TO_ZNX64_SIMPLE,
@@ -148,7 +149,7 @@ enum Op {
   OP_CPLX_FROM_TNX32_SIMPLE, OP_CPLX_TO_TNX32_SIMPLE,
   OP_R4_MUL_SIMPLE, OP_R4_ADDMUL_SIMPLE, OP_R4_FROM_CPLX_SIMPLE, OP_R4_TO_CPLX_SIMPLE,
   // object life cycle through the library allocator (C11 conservation; results unused)
-  OP_LIFE_MODULE, OP_LIFE_DFT, OP_LIFE_BIG, OP_LIFE_PPOL, OP_LIFE_PMAT, OP_LIFE_TABLE,
+  OP_LIFE_MODULE, OP_LIFE_DFT, OP_LIFE_BIG, OP_LIFE_PPOL, OP_LIFE_PMAT, OP_LIFE_TABLE, OP_LIFE_ALLOC, OP_LIFE_FFT_BUFFERS,
   OP_NOPS
 };
 
